@@ -39,8 +39,41 @@ int main_replay(){
   return 0;
 }
 '''
+REPLAY_STALEPOS = r'''
+/* On the real optimizer: two particles at {1, 2} are evaluated (0 iterations), the best-known points are cleared, the particles are moved to {3, 4}
+ * through each of the position setters / the box initialiser, and the optimizer is called again with 0 iterations.  Every best-known point must be
+ * a point at which the objective was evaluated. */
+int main_replay(){
+  using namespace TasOptimization;
+  int bad = 0;
+  for (int how = 0; how < 4; how++) {
+    std::vector<double> seen;
+    auto f = [&](const std::vector<double> &x, std::vector<double> &v){ for (size_t i = 0; i < v.size(); i++){ v[i] = x[i] * x[i]; seen.push_back(x[i]); } };
+    auto inside = [](const std::vector<double> &)->bool{ return true; };
+    auto rng = []()->double{ return 0.5; };
+    ParticleSwarmState state(1, 2);
+    state.setParticlePositions(std::vector<double>{1.0, 2.0}); state.setParticleVelocities(std::vector<double>{0.0, 0.0});
+    ParticleSwarm(f, inside, 0.5, 2.0, 2.0, 0, state, rng);
+    state.clearBestParticles();
+    std::vector<double> p = {3.0, 4.0};
+    if (how == 0) state.setParticlePositions(p.data());
+    if (how == 1) state.setParticlePositions(p);
+    if (how == 2) state.setParticlePositions(std::vector<double>(p));
+    if (how == 3) state.initializeParticlesInsideBox(std::vector<double>{3.0}, std::vector<double>{3.0}, rng);      /* a box of width zero: both particles at 3 */
+    ParticleSwarm(f, inside, 0.5, 2.0, 2.0, 0, state, rng);
+    std::vector<double> best = state.getBestParticlePositions();
+    for (size_t i = 0; i < best.size(); i++) { bool ev = false; for (double q : seen) if (q == best[i]) ev = true;
+      if (!ev) { std::printf("position setter %d: best-known point %zu is x = %g, where the objective was never evaluated (evaluated: %zu points)\n", how, i, best[i], seen.size()); bad++; } }
+  }
+  __CPROVER_assert(bad == 0, "F20b after the particles were moved by a setter, cached objective values of the old positions are not attached to the new ones");
+  return 0;
+}
+'''
 def replay_setters(prop):
     def rp(job, ob, vals, wd):
+        if "keeps the position that value belongs to" in ob["description"]:
+            hdr = "Replay against the real optimizer.\nproperty %s job %s\nobligation %s: %s\nat %s" % (prop, job.name, ob["name"], ob["description"], ob["location"])
+            return RP.write_and_run(prop, job.name + "." + ob["name"], hdr, ['"TasmanianOptimization.hpp"'], REPLAY_STALEPOS, "  main_replay();", lib="dream")
         w = vals.get("a_which", "4")
         try: wi = int(w)
         except Exception: wi = 4
@@ -71,8 +104,34 @@ int main_replay(){
   return 0;
 }
 '''
+REPLAY_ZEROSTRIP = r'''
+/* On the real optimizer: two particles at {1, 5}, the domain x < 2 contains the first particle and the origin but never the second particle.
+ * ParticleSwarm(0 iterations), clearCache(), ParticleSwarm(0 iterations): the objective must be evaluated only at points a particle visited. */
+int main_replay(){
+  using namespace TasOptimization;
+  std::vector<double> seen;
+  auto f = [&](const std::vector<double> &x, std::vector<double> &v){ for (size_t i = 0; i < v.size(); i++){ v[i] = x[i] * x[i] + 1.0; seen.push_back(x[i]); } };
+  auto inside = [](const std::vector<double> &x)->bool{ return x[0] < 2.0; };
+  auto rng = []()->double{ return 0.5; };
+  ParticleSwarmState state(1, 2);
+  state.setParticlePositions(std::vector<double>{1.0, 5.0}); state.setParticleVelocities(std::vector<double>{0.0, 0.0});
+  ParticleSwarm(f, inside, 0.5, 2.0, 2.0, 0, state, rng);
+  state.clearCache();
+  ParticleSwarm(f, inside, 0.5, 2.0, 2.0, 0, state, rng);
+  int bad = 0;
+  for (double q : seen) if (q != 1.0) { std::printf("the objective was evaluated at x = %g, a point no particle visited (particles: 1 inside the domain, 5 outside)\n", q); bad++; }
+  std::vector<double> best = state.getBestParticlePositions();
+  std::printf("best-known points after the second call: particle 0: %g, particle 1: %g, swarm: %g\n", best[0], best[1], best[2]);
+  __CPROVER_assert(bad == 0, "C20 F21c after clearCache() the objective is evaluated only at visited points (not at the zero strip of a particle that was never inside the domain)");
+  return 0;
+}
+'''
 def replay_split(prop):
+    zero = lambda job, ob: RP.write_and_run(prop, job.name + "." + ob["name"], "Replay against the real optimizer.\nproperty %s job %s\nobligation %s: %s\nat %s" % (prop, job.name, ob["name"], ob["description"], ob["location"]),
+                                            ['"TasmanianOptimization.hpp"'], REPLAY_ZEROSTRIP, "  main_replay();", lib="dream", timeout=60)
     def rp(job, ob, vals, wd):
+        if "F21c" in ob["description"]:
+            return zero(job, ob)
         hdr = "Replay against the real optimizer.\nproperty %s job %s\nobligation %s: %s\nat %s" % (prop, job.name, ob["name"], ob["description"], ob["location"])
         return RP.write_and_run(prop, job.name + "." + ob["name"], hdr, ['"TasmanianOptimization.hpp"'], REPLAY_SPLIT, "  main_replay();", lib="dream", timeout=60)
     return rp
